@@ -35,8 +35,8 @@ package compat
 //@   ensures @repaired: common.IsInvalidUTF8Error(err) && c.lastRepairErr == nil ==> result == nil
 //@   ensures @unrepairable_reported: common.IsInvalidUTF8Error(err) && c.lastRepairErr != nil ==> result == err && result != nil
 
-//@ extern quiet adminConvertTo122
-//@ extern quiet frontendConvertTo122
+//@ extern quiet adminConvertTo122@convertAndRepairInvalidUTF8
+//@ extern quiet frontendConvertTo122@convertAndRepairInvalidUTF8
 //@ extern quiet (common.Marshaler).Unmarshal
 //@ extern quiet (common.Marshaler).Marshal
 //@ extern quiet RepairInvalidUTF8
@@ -61,9 +61,29 @@ package compat
 // reported exactly when the chain is longer than the limit.
 //@ extern pure utf8.ValidString
 //@ extern pure strings.ToValidUTF8
+// trusted facts about the two standard-library functions (uninterpreted otherwise): the result of ToValidUTF8 is
+// valid, and a valid string is returned unchanged
+//@ axiom @to_valid_is_valid: forall s string, r string :: { strings.ToValidUTF8(s, r) } utf8.ValidString(r) ==> utf8.ValidString(strings.ToValidUTF8(s, r))
+//@ axiom @replacement_is_valid: utf8.ValidString(replacementCharacter)
 //@ contract repairInvalidUTF8InFailure
 //@   props C17 C18
+// every failure the walk leaves behind has a valid message (a message is skipped only when it already is valid),
+// and what is written is exactly the standard repair of what was there
+//@   callpre GetCause: @left_valid: utf8.ValidString(failure.Message)
+//@   writepre Message: @standard_repair: $value == strings.ToValidUTF8(failure.Message, replacementCharacter)
 //@   assigns all(failure122.Failure.Message)
 //@   callpre Errorf: @only_when_too_deep: failure != nil && count == maxFailureDepth
 //@   loop 1 invariant 0 <= count && count <= maxFailureDepth
 //@   loop 1 decreases maxFailureDepth - count
+
+// C17, 'a round trip through the legacy schema leaves every other field intact': the conversion tables hand back the
+// legacy message type of the SAME name as the message they are given (the two schemas share field numbers per type;
+// a neighbouring type would silently drop the fields it does not know).
+//@ contract frontendConvertTo122
+//@   props C17
+//@   ensures @same_message_type: result1 ==> result0 != nil && typename(result0) == typename(vAny)
+//@   ensures @unknown_type: !result1 ==> result0 == nil
+//@ contract adminConvertTo122
+//@   props C17
+//@   ensures @same_message_type: result1 ==> result0 != nil && typename(result0) == typename(vAny)
+//@   ensures @unknown_type: !result1 ==> result0 == nil
